@@ -421,7 +421,7 @@ func c03Deviations(l c03Layout) []c03Layout {
 			add(n, "remove "+f.file())
 		}
 		// $parent variants on this file
-		for vi, v := range []any{false, nil, true, 5, map[string]any{"x": 1}, "q", []any{"q"}, []any{"a", "q"}, "a.*", "q.*", "nope", []any{"q", 5}, "a.b"} {
+		for vi, v := range []any{false, nil, true, 5, map[string]any{"x": 1}, "q", []any{"q"}, []any{"a", "q"}, "a.*", "q.*", "nope", []any{"q", 5}, "a.b", []any{"q", "nope"}, []any{"nope", "q"}, []any{"q", "zz.*"}} {
 			if s, ok := v.(string); ok && (s == f.Name) {
 				continue
 			}
@@ -647,7 +647,7 @@ func buildC03(tier string) *core.Plan {
 		Run:  func(c *core.Ctx, i int64) { c03Run(c, layouts[i]) }}
 	return &core.Plan{
 		Spaces: []core.Space{sp},
-		Rule: "5 baseline directory layouts (filename chains of depth 1-4 with sibling layers) and every layout within <= depth deviations: one file's extension changed (6 formats), one layer removed, 13 $parent values in document 0 or 1 of any file, false+string, " +
+		Rule: "5 baseline directory layouts (filename chains of depth 1-4 with sibling layers) and every layout within <= depth deviations: one file's extension changed (6 formats), one layer removed, 16 $parent values in document 0 or 1 of any file, false+string, " +
 			"a filename link re-expressed by $parent on a renamed file, relative/absolute/chained/dotted symlinks as entry, -P, virtual or unsupported extension on the command line, a second input before or after; each run through the real bkl CLI",
 		Assumptions: []string{"refResolve + refStream + refMerge give the ordered layer list and the expected documents (each layer appends its name to `order`, so application order is visible); $parent values of other types (numbers, maps) are not judged",
 			"every layer name is provided by exactly one file; output files are never placed next to inputs"},
